@@ -851,4 +851,11 @@ def _fstring_structure(ctx):
     return rule_r3(ctx)
 
 
-RULES = [("C03-R1", rule_r1), ("C03-R2", rule_r2), ("C03-R3", rule_r3), ("C03-R4", rule_r4), ("C03-R4b", rule_r4b), ("C03-R5", rule_r5), ("C03-R6", rule_r6), ("C03-R7", rule_r7), ("C11-R6", lambda_skeleton_rule), ("C04-R3", _fstring_structure)]
+def _constant_cases(ctx):
+    """Constants are leaves of the round trip: the case analysis of unparse_Constant (shared rule C04-R2)."""
+    from .c04 import rule_r2
+
+    return rule_r2(ctx)
+
+
+RULES = [("C04-R2", _constant_cases), ("C03-R1", rule_r1), ("C03-R2", rule_r2), ("C03-R3", rule_r3), ("C03-R4", rule_r4), ("C03-R4b", rule_r4b), ("C03-R5", rule_r5), ("C03-R6", rule_r6), ("C03-R7", rule_r7), ("C11-R6", lambda_skeleton_rule), ("C04-R3", _fstring_structure)]
